@@ -117,7 +117,7 @@ def run(ctx) -> Report:
             else:
                 rep.ok("C21-subst", cls, f"replace({desc}, {mdesc}): substituted exactly ({how}){'' if touched else '; returned unchanged'}")
     # shape-changing mappings are rejected
-    for mdesc, mp in (("{f: u}", {f: u}), ("{u: A}", {u: A}), ("{u: f}", {u: f})):
+    for mdesc, mp in (("{f: u}", {f: u}), ("{u: A}", {u: A}), ("{u: f}", {u: f}), ("{f: h, u: A} (one valid, one shape-changing entry)", {f: h, u: A}), ("{u: A, f: h}", {u: A, f: h})):
         H = PassHarness(ctx, CLS)
         try:
             H.init(dict(mp))
